@@ -116,7 +116,7 @@ class Check:
         fails = 0
         for k in range(times):
             rc, res, err, _ = self.run_worker_sync("replay", ["--replay", case_path])
-            if rc == 3:
+            if rc in (3, 97):
                 self.harness_errors.append(res["harness_error"] if res else err)
                 return False
             if rc == 0:
@@ -135,7 +135,7 @@ class Check:
         if rc == 0 and res and res["replayed"]:
             r = res["replayed"][0]
             return r["failed"], r.get("msg", ""), r.get("key")
-        if rc == 3:
+        if rc in (3, 97):
             self.harness_errors.append(res["harness_error"] if res else err)
             return False, "harness error", None
         return True, "crash (exit %s): %s" % (rc, summarize_sanitizer(err)), crash_key(err)
@@ -249,8 +249,8 @@ class Check:
             elif rc == 3:
                 res = json.load(open(out)) if os.path.isfile(out) else None
                 self.harness_errors.append(res["harness_error"] if res else err[-4000:])
-            elif rc in (1, 2):
-                # an uncaught Python exception in the worker: a broken harness, never a verdict
+            elif rc in (1, 2, 97):
+                # an uncaught Python exception in the worker, or the native probe layer giving up (97): a broken harness, never a verdict
                 self.harness_errors.append("worker %d exited %d: %s" % (i, rc, err[-3000:]))
             else:
                 # crash: candidate is the last case written
@@ -280,7 +280,7 @@ class Check:
                 with open(tmp, "w") as f:
                     f.write(core.dumps({"property": self.pid, "case": cand}))
                 rc, res, err, _ = self.run_worker_sync("min", ["--replay", tmp])
-                if rc not in (0, 3):
+                if rc not in (0, 3, 97):
                     case = cand
                     improved = True
                     break
